@@ -31,6 +31,10 @@ CLAIMED = {
    text="Sequential specification of the registry operations (RegisterService, ServiceReady, UnregisterService, UpdateServiceInfo, info, Service) proved as postconditions over the state at the linearization point, with the registry invariant (staging and services disjoint, every id in 1..lastID, ServiceId == key) assumed at Lock and proved at Unlock; identifiers are lastID+1 (strictly increasing, never reused); a name present in staging or services is refused (map-range loops with visited-set invariants); ready moves staging->services and emits exactly one service-added event, unregister emits service-removed exactly when the service was visible; updates cannot change name or id. Every access to the three fields carries a guard obligation, each operation has exactly one critical section, and events are emitted inside it: with the monitor rule this gives linearizability in the order of the critical sections.",
    note="Linearizability = sequential spec + one critical section per operation + monitor rule (assumption, not machine-checked). History assumption: fewer than 2^32-1 registrations (monitor_assume lastID < 2^32-1). Services() (sorted listing; append of struct elements is outside the engine's subset) and the generated stub plumbing are not under contract. Signal helper methods are abstract with ghost event counters.",
    technique="contract-based deductive verification with lock-protected (monitor) invariants and ghost event counters, SMT", ref="7 C15"),
+ "C19": dict(level="proof",
+   text="Lock-state obligations on every path of Session.client, its disconnect callback, findServiceName/findServiceID and Terminate (RUnlock only when read-held, Unlock only when write-held, nothing held at return), guard obligations on every access to the connection pool and service list, and the insertion discipline: a client is stored for an address only under the write lock and only when the address is absent (mid-body assertion at the insertion), so at most one client per address is ever stored; pooled clients are never nil.",
+   note="Only the crash-freedom / at-most-one-connection part is decided. 'Every request for a registered service succeeds with a working proxy' depends on the network and is not decided. Schedules through the monitor rule. bus.SelectEndPoint, bus.NewClient and the EndPoint/Channel/Client interface methods are abstract (assumed contracts).",
+   technique="contract-based deductive verification: lock-state and guard obligations, monitor invariant, SMT", ref="7 C19"),
 }
 
 NOT_APPLICABLE = {
